@@ -47,7 +47,7 @@ pub fn gen(r: &mut Rng) -> Value {
     // the main script may be named like one of the included files (in another directory) and may be opened through a
     // path relative to the working directory
     let main_name = ["main.ds", "b.ds", "c.ds", "main.ds"][r.below(4)];
-    json!({"files": files, "main_includes": listed, "bad": bad, "split": r.chance(1, 2), "main_name": main_name, "rel": r.below(3), "indent": r.below(4)})
+    json!({"files": files, "main_includes": listed, "bad": bad, "split": r.chance(1, 2), "main_name": main_name, "rel": r.below(3), "indent": r.below(4), "pos": r.below(3), "abs": r.chance(1, 4)})
 }
 
 fn paste(dir: &PathBuf, rel: &str, files: &serde_json::Map<String, Value>, out: &mut Vec<(String, usize, String)>) -> Option<()> {
@@ -60,6 +60,12 @@ fn paste(dir: &PathBuf, rel: &str, files: &serde_json::Map<String, Value>, out: 
         out.push((dir.join(&key).to_string_lossy().to_string(), i + 1, t.to_string()));
         if let Some(rest) = t.trim_start().strip_prefix("!include_files ") {
             for inc in rest.split(' ').filter(|x| !x.is_empty()) {
+                // an absolute path names the file itself
+                let dir_txt = dir.to_string_lossy().to_string();
+                if let Some(relpart) = inc.strip_prefix(&format!("{}/", dir_txt)) {
+                    paste(dir, relpart, files, out)?;
+                    continue;
+                }
                 // normalise ./ and ../ against base (a `..` that climbs above the work directory is kept)
                 let mut comps: Vec<String> = base.components().map(|c| c.as_os_str().to_string_lossy().to_string()).collect();
                 for comp in inc.split('/') {
@@ -90,7 +96,14 @@ pub fn run(input: &Value) -> Option<Value> {
     fs::create_dir_all(dir.join("lib/deep")).ok()?;
     let mut files = files;
     let includes: Vec<String> = input["main_includes"].as_array()?.iter().map(|v| v.as_str().unwrap().to_string()).collect();
-    let mut main_lines = vec![json!("m0 = set start")];
+    let pos = input["pos"].as_u64().unwrap_or(1);
+    let includes: Vec<String> = if input["abs"].as_bool().unwrap_or(false) {
+        includes.iter().map(|i| match i.strip_prefix("./") { Some(t) => format!("{}/{}", dir.to_string_lossy(), t), None => i.clone() }).collect()
+    } else {
+        includes
+    };
+    // the directive may be the first, a middle or the last line of the main script
+    let mut main_lines = if pos == 0 { vec![] } else { vec![json!("m0 = set start")] };
     // a directive line may be indented like any other line
     let ind = ["", " ", "\t", "   "][input["indent"].as_u64().unwrap_or(0) as usize % 4];
     if input["split"].as_bool()? {
@@ -100,7 +113,9 @@ pub fn run(input: &Value) -> Option<Value> {
     } else {
         main_lines.push(json!(format!("{}!include_files {}", ind, includes.join(" "))));
     }
-    main_lines.push(json!("m1 = set end"));
+    if pos != 2 {
+        main_lines.push(json!("m1 = set end"));
+    }
     let main_name = input["main_name"].as_str().unwrap_or("main.ds").to_string();
     files.insert(main_name.clone(), json!(main_lines));
     let bad = input["bad"].as_u64()?;
